@@ -144,3 +144,33 @@ def time_limit(seconds):
     finally:
         signal.setitimer(signal.ITIMER_REAL, 0)
         signal.signal(signal.SIGALRM, old)
+
+
+class CpuBudgetExceeded(Exception):
+    pass
+
+
+@contextlib.contextmanager
+def cpu_budget(seconds, wall_factor=30):
+    """Deadline in *virtual* time: CPU seconds consumed by this process (ITIMER_VIRTUAL), which a
+    loaded machine does not inflate.  Used where 'does not run to completion' is itself the verdict
+    (C14): a loop that never ends burns CPU and exhausts any budget, a slow case on a busy machine
+    does not.  A separate wall-clock watchdog (wall_factor x the budget) raises CaseTimeout, which is
+    never a verdict."""
+    def on_cpu(signum, frame):
+        raise CpuBudgetExceeded(f"case used more than {seconds}s of CPU time")
+
+    def on_wall(signum, frame):
+        raise CaseTimeout(f"case exceeded {seconds * wall_factor}s of wall-clock time")
+
+    old_v = signal.signal(signal.SIGVTALRM, on_cpu)
+    old_r = signal.signal(signal.SIGALRM, on_wall)
+    signal.setitimer(signal.ITIMER_VIRTUAL, seconds)
+    signal.setitimer(signal.ITIMER_REAL, seconds * wall_factor)
+    try:
+        yield
+    finally:
+        signal.setitimer(signal.ITIMER_VIRTUAL, 0)
+        signal.setitimer(signal.ITIMER_REAL, 0)
+        signal.signal(signal.SIGVTALRM, old_v)
+        signal.signal(signal.SIGALRM, old_r)
